@@ -86,6 +86,10 @@ def registry():
         R.append((f"div_{t}", "div", inc("math/div"), f"fcppt::math::div({CNAME[t]}{{}}, {CNAME[t]}{{}})", [t, t]))
     for l, r in DIV_MIXED:
         R.append((f"div_{l}_{r}", "div", inc("math/div"), f"fcppt::math::div({CNAME[l]}{{}}, {CNAME[r]}{{}})", [l, r]))
+    # ceil_div_signed compiles for the narrow signed types as well (every intermediate is cast back to T)
+    for t in ["i8", "i16"]:
+        R.append((f"ceil_div_signed_{t}", "ceil_div_signed", inc("math/ceil_div_signed"),
+                  f"fcppt::math::ceil_div_signed<{CNAME[t]}>({CNAME[t]}{{}}, {CNAME[t]}{{}})", [t]))
     # math::interval_distance: the two intervals arrive as four scalars (tuple slots)
     for t in ALL:
         tup = f"fcppt::tuple::object<{CNAME[t]}, {CNAME[t]}>"
